@@ -27,8 +27,14 @@ ASSUMPTIONS = [
     "a GETBULK response shorter than N+M*R is conformant and must be accepted; only len > N+M*R must be refused",
     "any SnmpError subclass counts as 'refused with SnmpError'",
 ]
-REQUIRED_CLASSES = {"perturbed": 0.15, "absent": 0.10, "end_of_view": 0.05, "v1": 0.05, "v3": 0.05,
+_REQUIRED_BASE = {"perturbed": 0.15, "absent": 0.10, "end_of_view": 0.05, "v1": 0.05, "v3": 0.05,
                     "op=bulkget": 0.04, "op=multiset": 0.05}
+# generator health of the newer case families (quick tier: the thorough tier dilutes them with enumerated units)
+_REQUIRED_QUICK = {'bulk_response_cut_in_first_row': 0.005}
+
+
+def REQUIRED_CLASSES(tier):
+    return dict(_REQUIRED_BASE, **(_REQUIRED_QUICK if tier == "quick" else {}))
 
 
 def _exp_value(tag, content):
